@@ -96,11 +96,13 @@ class Region:
     def reach(self, start=None, cut=(), avoid=()):
         start = self.entry if start is None else start
         avoid = set(avoid)
+        if start in avoid:
+            return set()
         seen = {start}
         st = [start]
         while st:
             x = st.pop()
-            if x in avoid and x != start:
+            if x in avoid:
                 continue
             for s in self.rsucc(x, cut):
                 if s not in seen:
